@@ -58,12 +58,17 @@ func (p *prog) nonTrivial() bool {
 	return false
 }
 
+var payloadBuf []byte
+
+// payload: n bytes 'a' (a shared read-only backing array: the writer copies what it keeps)
 func payload(n int) []byte {
-	b := make([]byte, n)
-	for i := range b {
-		b[i] = 'a'
+	if len(payloadBuf) < n {
+		payloadBuf = make([]byte, n+65536)
+		for i := range payloadBuf {
+			payloadBuf[i] = 'a'
+		}
 	}
-	return b
+	return payloadBuf[:n:n]
 }
 
 func pat(n int, seed byte) []byte {
@@ -112,6 +117,19 @@ func genProg(r *rand.Rand) *prog {
 		sizes[i] = writeSize(r)
 	}
 	explicitCL := r.Intn(3) == 0
+	if r.Intn(8) == 0 {
+		// a declared length, the head and a large part sent, then the body buffer filled to exactly 64 KiB
+		a := 1 + r.Intn(65535)
+		sizes = []int{65536 + r.Intn(5000), a, 65536 - a}
+		if r.Intn(2) == 0 {
+			sizes = append(sizes, writeSize(r))
+		}
+		nw = len(sizes)
+		explicitCL = true
+		if code == 204 || code == 304 {
+			code = 200
+		}
+	}
 	lateCL := !explicitCL && nw > 1 && r.Intn(12) == 0 // Content-Length set between two writes (legal for a handler, odd)
 	trailers := !explicitCL && p.Minor == 1 && r.Intn(4) == 0
 	if explicitCL {
@@ -223,7 +241,7 @@ func runResp(p *prog, al *Alloc, fails func(int) bool) respResult {
 	install(al)
 	var res respResult
 	fc := &sconn{al: al, fails: fails}
-	engine := nbhttp.NewEngine(nbhttp.Config{BodyAllocator: al, Handler: http.HandlerFunc(func(rw http.ResponseWriter, rq *http.Request) {
+	engine := newEngine(al, nbhttp.Config{Handler: http.HandlerFunc(func(rw http.ResponseWriter, rq *http.Request) {
 		res.wrets = runOps(p, rw)
 	})})
 	ps := nbhttp.NewParser(fc, engine, nbhttp.NewServerProcessor(), false, nil)
@@ -330,20 +348,10 @@ func respCase(h *H, r *rand.Rand, idx int, allK bool) {
 	al0 := NewAlloc(mode, 0)
 	base := runResp(p, al0, nil)
 	nw := len(base.lens)
-	ks := []int{}
-	if allK {
-		for k := 0; k < nw; k++ {
-			ks = append(ks, k)
-		}
-	} else if nw > 0 {
-		ks = append(ks, r.Intn(nw))
-		if nw > 1 {
-			ks = append(ks, r.Intn(nw))
-		}
-	}
-	for _, k := range ks {
+	// conn.Write failing from the k-th write on, for EVERY k; failing only at the k-th, for every k (thorough) or some k
+	for k := 0; k < nw; k++ {
 		scripts = append(scripts, script{fmt.Sprintf("from%d", k), failFrom(k)})
-		if r.Intn(2) == 0 || allK {
+		if allK || r.Intn(3) == 0 {
 			scripts = append(scripts, script{fmt.Sprintf("only%d", k), failOnly(k)})
 		}
 	}
@@ -568,7 +576,7 @@ func runConn(h *H, cs *connSpec, idx int, tag string) {
 	fc.onClose = func() { closeAsked = true }
 	served := 0
 	var bodyProblems []string
-	engine := nbhttp.NewEngine(nbhttp.Config{BodyAllocator: al, MaxHTTPBodySize: cs.MaxBody, ReadLimit: cs.ReadLimit,
+	engine := newEngine(al, nbhttp.Config{MaxHTTPBodySize: cs.MaxBody, ReadLimit: cs.ReadLimit,
 		Handler: http.HandlerFunc(func(rw http.ResponseWriter, rq *http.Request) {
 			if served >= len(cs.Reqs) {
 				return
@@ -709,7 +717,7 @@ func connCase(h *H, r *rand.Rand, idx int, allCuts bool) {
 	}
 	runConn(h, cs, idx, "")
 	// every two-way segmentation of a short stream, closed after the first / after both segments
-	if total <= 400 && (allCuts || idx%16 == 0) {
+	if total <= 400 && (allCuts && idx%4 == 0 || idx%24 == 0) {
 		for c := 1; c < total; c++ {
 			v := *cs
 			v.Cuts = []int{c}
